@@ -60,11 +60,22 @@ def main(argv=None):
 
     opts = {'second': tier == 'thorough',
             'select': getattr(prop, 'SELECT', None)}
-    results = run.verify_many(prop.FUNCS, prop.MODS, opts)
+    # development aid (false-alarm triage of a patch): only these functions
+    only = os.environ.get('PYVC_ONLY_FUNCS')
+    only = set(only.split(',')) if only else None
+
+    def pick(fs):
+        if only is None:
+            return fs
+        return [f for f in fs if f.split('#')[0] in only or any(
+            f.startswith(o + '.') for o in only)]
+    results = run.verify_many(pick(prop.FUNCS), prop.MODS, opts) \
+        if pick(prop.FUNCS) else []
     # further groups of functions verified against another set of contract
     # modules (hook tables of different abstractions do not mix)
     for funcs2, mods2 in getattr(prop, 'MORE', []):
-        results += run.verify_many(funcs2, mods2, opts)
+        if pick(funcs2):
+            results += run.verify_many(pick(funcs2), mods2, opts)
 
     known = [k for k in load_known().get('open', [])
              if pid in k.get('properties', [k.get('property')])]
@@ -85,6 +96,19 @@ def main(argv=None):
     second_total = second_agree = 0
     assumed = set()
     funcs_ok = []
+    imp_path = os.path.join(HERE, 'contracts', 'refimprecise.json')
+    try:
+        imp_base = json.load(open(imp_path))
+    except OSError:
+        imp_base = {}
+    if os.environ.get('PYVC_WRITE_BASELINE'):
+        # tools/mkbaseline.sh: record what is over-approximated on the tree
+        # the contracts were written against
+        for r in results:
+            if r.get('imprecise'):
+                imp_base[r['function']] = sorted(set(
+                    imp_base.get(r['function'], [])) | set(r['imprecise']))
+        json.dump(imp_base, open(imp_path, 'w'), indent=0, sort_keys=True)
     for r in results:
         if r['error']:
             broken.append('%s: engine error\n%s' % (r['function'],
@@ -135,12 +159,33 @@ def main(argv=None):
                                     'backend': o['backend'],
                                     'seconds': o['time']})
             elif o['status'] == 'sat':
-                violations.append(o)
+                newimp = sorted((set(r.get('imprecise') or []) - set(
+                    imp_base.get(r['function'], []))) & set(
+                        o.get('hangs_on', r.get('imprecise') or [])))
+                if newimp and not o.get('const_false') and (
+                        o.get('replay') or {}).get('status') != 'reproduced':
+                    # the function now contains a construct the generator
+                    # only over-approximates (a loop its contract has no
+                    # invariant for, a string method modelled by an
+                    # unconstrained value, ...) which it did not contain in
+                    # the tree the contracts were written against: a failed
+                    # obligation then means "needs a contract", not
+                    # "property broken" -- unless the counter-model replays
+                    # on the real code, or the clause is plain False (then
+                    # its failure does not hang on a symbolic value)
+                    undecided.append(
+                        '%s: not provable, the code now uses %s (over-'
+                        'approximated); no failing input found' % (
+                            o['name'], ', '.join(newimp)))
+                else:
+                    violations.append(o)
             else:
                 undecided.append('%s: solver unknown' % o['name'])
         if nany == 0:
             broken.append('%s: zero obligations generated' % r['function'])
         funcs_ok.append(r['function'])
+        if os.environ.get('PYVC_TRACE_DEFAULT') and r.get('default_loops'):
+            print('DEFAULT-LOOPS', r['function'], r['default_loops'])
 
     for grp, sts in canary_groups.items():
         n_canary += 1
@@ -158,6 +203,13 @@ def main(argv=None):
             observed = item[3] if len(item) > 3 else getattr(
                 prop, 'LEMMAS_ARE_OBSERVATIONS', True)
             n_obl += 1
+            if ok is None:
+                # the lemma could not be decided for this shape of the code:
+                # undecided (exit 2), never a violation
+                lemma_results.append({'lemma': name, 'holds': None,
+                                      'detail': detail})
+                undecided.append('lemma %s: %s' % (name, detail))
+                continue
             lemma_results.append({'lemma': name, 'holds': bool(ok),
                                   'detail': detail})
             if ok:
@@ -177,6 +229,8 @@ def main(argv=None):
     # list of fn(seed) -> dict as in props/bounded.py): reported under
     # bounded_stand_ins, never counted among the discharged obligations
     for f in getattr(prop, 'QUICK_BOUNDED', []):
+        if os.environ.get('PYVC_NO_BOUNDED'):
+            break
         b = f(seed)
         bounded.append(b)
         for fl in (b.get('failures') or [])[:3]:
@@ -275,6 +329,14 @@ def main(argv=None):
                                                                       tier),
             'trusted_base': getattr(prop, 'TRUSTED', []) + [
                 'pyvc VC generator (this repository, /verif/pyvc)',
+                'extraction: the functions are read from the tree under '
+                'check with ast on every run; dropped: comments and '
+                'docstrings; local names of a function that differs from '
+                'the tree the contracts were written against only by a '
+                'renaming are alpha-converted back (pyvc/alpha.py, the '
+                'conversion is checked to preserve the binding structure); '
+                'functions renamed in this run: %s' % (
+                    [q for q, _ in front.repo().renamed] or 'none'),
                 'z3 %s' % _z3v()],
             'functions_under_contract': funcs_ok,
             'callee_contracts_assumed_at_call_sites': sorted(assumed),
